@@ -162,7 +162,7 @@ def apply_ref(d, op):
         d["pvals"]["TT"] = op[2]
     elif k == "set_initial":
         d["init"].append([op[1], op[2], op[3]])
-    elif k in ("query", "solve", "save_load"):
+    elif k in ("query", "solve", "save_load", "sol_query"):
         pass
     else:
         raise KeyError(k)
@@ -224,7 +224,11 @@ def apply_real(r, d, op):
         elif op[1] == "sample_i":
             st.sample(s["x"], grid="integrator")
     elif k == "solve":
-        ocp.solve_limited()
+        r.last_sol = ocp.solve_limited()
+    elif k == "sol_query":
+        # read the most recent solution object again (it may predate later edits)
+        if getattr(r, "last_sol", None) is not None:
+            r.last_sol.sample(s["x"], grid="control")
     else:
         raise KeyError(k)
 
